@@ -46,6 +46,7 @@ func init() {
 			{Name: "base32-exhaustive", Run: guarded("base32-exhaustive", extraBase32)},
 			{Name: "idgen-real-clock", Run: guarded("idgen-real-clock", extraIdGen)},
 			{Name: "strgen-real-source", Run: guarded("strgen-real-source", extraStrReal)},
+			{Name: "count-copy-aliasing", Run: guarded("count-copy-aliasing", extraCountCopy)},
 		},
 		Assumptions: []string{
 			"Go int treated as unbounded in CountGenerator (no sum near 2^63); rule parameters up to 2^40 are generated, the theorems cover every parameter that fits a Go int",
@@ -213,6 +214,12 @@ func idStep(t []string) string {
 		}
 		id := randz.ID(v)
 		return id.String() + " " + id.Base2() + " " + id.Base36()
+	case t[0] == "millis" && len(t) == 2: // the stdlib fact the model's `millis` stands for
+		d, err := strconv.ParseInt(t[1], 10, 64)
+		if err != nil {
+			return "bad-op"
+		}
+		return strconv.FormatInt(time.Duration(d).Milliseconds(), 10)
 	case t[0] == "newgen" && len(t) == 2:
 		rb, err := strconv.Atoi(t[1])
 		if err != nil {
@@ -421,6 +428,12 @@ func checkID(c core.Case, out []string) *core.Failure {
 			want := bv.Text(10) + " " + bv.Text(2) + " " + bv.Text(36)
 			if o != want {
 				return &core.Failure{Key: "numeral-wrong", Desc: fmt.Sprintf("String/Base2/Base36 of %d = %q, standard numerals are %q", v, o, want)}
+			}
+		case "millis":
+			d, _ := strconv.ParseInt(t[1], 10, 64)
+			want := new(big.Int).Quo(big.NewInt(d), big.NewInt(1000000)).String() // Quo truncates toward zero
+			if o != want {
+				return &core.Failure{Key: "milliseconds-fact", Desc: fmt.Sprintf("time.Duration(%d).Milliseconds() = %s, truncated quotient by 10^6 is %s", d, o, want)}
 			}
 		case "newgen":
 			rb, _ := strconv.Atoi(t[1])
